@@ -741,7 +741,7 @@ FINDING_CLASSES["json-integral-float-beyond-uint64"] = lambda s, m: _old_kf(s, m
 PROPS["C01"] = dict(
     coq="Properties_C01",
     level_text="Proved in Coq on the object-layer models (RoundTripProof.v, all four atlas entry kinds: struct maps with renamed / ignored / omitempty fields and embedded routes, the nine modelled transform pairs incl. transform-typed map keys and a transform to interface{}, keyed unions, map morphisms, tags): for every well-typed value (wt: integers in range of their kind, float32 representable, array lengths, distinct map keys) in the domain (untyped slots hold native values or values of tagged types) marshalling and unmarshalling the resulting tokens into a zero value of the same type consumes exactly those tokens and yields a value related by req — equality except for exactly the property's list: null has no shape, omitted-as-empty fields come back empty, the concrete numeric type inside untyped slots — and well-typed again; each transform pair is proved inverse on its domain. Three configurations outside the domain are exhibited as kernel-checked refutations (a tagged transform around tagged content keeps one tag only; a pointer to a value whose serial form is null; a transform outside its domain). The byte level composes this with C02 (CBOR) and C03/C05 (JSON) and is compared per case. Tied to refmt.MarshalAtlased / UnmarshalAtlased end to end: generated types (reflect.StructOf structs, named types, transforms, unions, tags, sort modes, autogenerated struct maps of Go-source-generated struct families), values with boundary numbers, nil/empty containers, both formats with all whitespace options; bytes and the value read back are compared with the model composition, and the harness checks equality-up-to-wire-limits on the real Go values itself.",
-    level_note="The byte-level end-to-end statement (marshal, encode, decode, unmarshal) is the composition of theorems of different files; its machine-checked form is EndToEndProof.v when present, otherwise the composition is checked per case by the roundtrip suite. Floats through JSON use the shortest-digits oracle. Trusted as in trusted_base. No axioms.",
+    level_note="The byte level is machine-checked too (EndToEndProof.v): cbor_end_to_end and json_end_to_end compose marshal_top, the encoder model, the decoder model and unmarshal_top — what MarshalAtlased / UnmarshalAtlased do — under the codecs' limits (32 MiB per item, tag and length ranges; for JSON: no byte strings, valid UTF-8, untyped slots holding native values); JSON floats are under the shortest-digits oracle hypothesis of C03 with the exact read-back relation (−0 reads back as 0, an integral float in an untyped slot comes back as an integer), the float-free instance is unconditional. Trusted as in trusted_base. No axioms.",
     rule="(format, options, type, value, atlas); non-trivial = output of at least 3 bytes; distinct by payload",
     trusted_base=_OBJ_TB,
     assumptions=["values in untyped slots are native kinds or values of tagged registered types (CBOR); JSON cases are restricted to JSON's data model"],
@@ -810,7 +810,7 @@ def cmp_c12(payload, impl, model):
 PROPS["C12"] = dict(
     coq="Properties_C12",
     level_text="Proved in Coq on the object-layer models (RoundTripProof.token_roundtrip_remarshal): the value the unmarshaller returns marshals to exactly the tokens it was read from, provided no omitempty field has a type whose empty value still serializes (omit_ok) and integers in untyped slots already have the type an untyped slot gives them (rmv) — both conditions are shown necessary by kernel-checked refutations (uint8(5) in a slot re-marshals as Int 5; an omitempty pointer to a nil slice is dropped the second time). Since the untyped unmarshaller only produces rmv values, decoding a document into an untyped variable and marshalling again is a fixpoint from the second document on, and the first re-marshal may only re-type numbers — the property's own exception. Composed with the codec round trips (C02; C03/C05) this is the byte-level statement. Tied to refmt.Marshal / Unmarshal(&interface{}) / Marshal end to end: the three documents, the value read back into the original type, the fixpoint and the native-first-round identity are compared with the model pipeline and checked directly on the real bytes.",
-    level_note="Trusted as in trusted_base. The JSON float oracle applies. No axioms.",
+    level_note="The byte-exact statement is cbor_remarshal / json_remarshal in EndToEndProof.v (re-marshalling the value read back reproduces the bytes; stated for explicit marshaller fuel and for marshal_top whenever it does not run out of fuel). Trusted as in trusted_base. The JSON float oracle applies. No axioms.",
     rule="(format, type, value, atlas); non-trivial = first document of at least 3 bytes; distinct by payload",
     trusted_base=_OBJ_TB,
     assumptions=["values in untyped slots are native kinds or tagged registered types"],
